@@ -280,6 +280,9 @@ def _parse_time(toks):
     time_fmt = '%H:%M:%S'
     if '.' in time_str:
         time_fmt += '.%f'
+        # any number of fraction digits is legal; a time keeps microseconds
+        (head, frac) = time_str.split('.')
+        time_str = head + '.' + frac[:6]
     return [datetime.datetime.strptime(time_str, time_fmt).time()]
 
 
